@@ -32,7 +32,10 @@ type (
 		Fn   string
 		Args []Expr
 	}
-	EUn  struct{ Op string; X Expr }
+	EUn struct {
+		Op string
+		X  Expr
+	}
 	EBin struct {
 		Op   string
 		L, R Expr
@@ -198,9 +201,9 @@ func ParseExpr(src string) (Expr, error) {
 type perr string
 
 func (p *eparser) fail(f string, a ...interface{}) { panic(perr(fmt.Sprintf(f, a...))) }
-func (p *eparser) cur() tok                          { return p.toks[p.p] }
-func (p *eparser) adv() tok                          { t := p.toks[p.p]; p.p++; return t }
-func (p *eparser) isOp(s string) bool                { return p.cur().kind == "op" && p.cur().s == s }
+func (p *eparser) cur() tok                        { return p.toks[p.p] }
+func (p *eparser) adv() tok                        { t := p.toks[p.p]; p.p++; return t }
+func (p *eparser) isOp(s string) bool              { return p.cur().kind == "op" && p.cur().s == s }
 func (p *eparser) want(s string) {
 	if !p.isOp(s) {
 		p.fail("expected %q, got %q", s, p.cur().s)
